@@ -74,7 +74,8 @@ def renderCreate (c : Ctx) (d : CreateD) : Doc :=
     if d.columns.isEmpty && d.asSelect.isNone then [] else
     let head : Doc :=
       if d.vertica then
-        kws "CREATE " :: opt d.local (K "LOCAL ") ++ opt d.temporary (K "TEMPORARY ") ++ kws "TABLE " :: (t.doc k ++ aliasDoc k k.q t.alias)
+        kws "CREATE " :: opt d.local (K "LOCAL ") ++ opt d.temporary (K "TEMPORARY ") ++ kws "TABLE " ::
+          opt d.ifNotExists (K "IF NOT EXISTS ") ++ (t.doc k ++ aliasDoc k k.q t.alias)
       else
         kws "CREATE " :: (if d.temporary then K "TEMPORARY " else if d.unlogged then K "UNLOGGED " else []) ++ kws "TABLE " ::
           opt d.ifNotExists (K "IF NOT EXISTS ") ++ (t.doc k ++ aliasDoc k k.q t.alias)
